@@ -9,7 +9,9 @@ Case dicts (JSON):
 K in NUM_KINDS (small integral values) or 'S3' (data = list of ascii strings of length <= 3).
 A None in 'map' is the invalid marker selected by 'inv' (0: -1, 1: INVALID_INDEX_32, 2: INVALID_INDEX_64).
 The environment variable C04_VARIANT=orig makes the *model* the code as found (used once to tie the
-`…_refuted` theorems to the unrepaired tree); the default model is the repaired code.
+`…_refuted` theorems to the unrepaired tree), C04_VARIANT=fixed0 the code after the C04 fixes but before
+work/E7/fix-F-C02f.diff (ties map_stream_unordered_map_refuted / indexed_stream_unordered_map_refuted to that
+tree); the default model is the repaired code.
 """
 import itertools, os
 
@@ -24,22 +26,27 @@ TIMEOUT_S = 6.0
 INV = [-1, (1 << 31) - 1, 1 << 62]
 INV_NAME = ['-1', 'S32', 'S64']
 NUM_KINDS = ['int32', 'int64', 'uint8', 'float32', 'float64', 'bool']
-VARIANT = 1 if os.environ.get('C04_VARIANT', 'fixed') == 'orig' else 0
+VARIANT = {'orig': 1, 'fixed0': 2}.get(os.environ.get('C04_VARIANT', 'fixed'), 0)
 
 RULE = ('exhaustive small scope: every map of length <= N whose valid entries are non-decreasing indices into a '
-        'source of length <= L with invalid markers at any positions (quick N=5,L=4; thorough N=6,L=5) x marker in '
+        'source of length <= L with invalid markers at any positions (quick N=5,L=4; thorough N=6,L=5), AND every map '
+        'of length <= Nu over a source of length <= Lu with the valid entries in ANY order (quick Nu=5,Lu=4; thorough '
+        'Nu=6,Lu=4; one source kind and one value_factor per (map, chunk size) in the quick tier, rotating; since fix-F-C02f the streams accept them) x marker in '
         '{-1, INVALID_INDEX_32, INVALID_INDEX_64} x chunk size 1..N+1 x source kind (int32 exhaustively; int64, '
         'uint8, float32, float64, bool, fixed string S3 rotated over the maps), for ordered_map_valid_stream; the same '
         'maps x value_factor 1..3 x source string-length patterns built around the value-buffer size B = cs*vf '
         '(empty entries, entries of exactly B bytes, B+1 bytes mapped = clear-error regime, B+1 unmapped) for '
         'ordered_map_valid_indexed_stream; all maps for safe_map_values / safe_map_indexed_values / map_valid; then '
-        'seeded structured random longer cases (all-invalid chunks, gaps larger than a chunk, HDF5-backed fields). '
+        'seeded structured random longer cases (all-invalid chunks, gaps larger than a chunk, HDF5-backed fields; '
+        'unordered: saw-tooth maps of many-to-many joins, random permutations, zig-zags between the two ends of the '
+        'source). '
         'Non-trivial = the case reaches at least one planted feature other than its marker/kind tags.')
 EXHAUSTIVE = {'quick': True, 'thorough': True}
 TRUSTED = ['numba code generation; numpy slicing/fill semantics (modelled by np_slice / np_slice_fill / np_get)',
            'MemoryFieldArray / HDF5 field write, write_part (modelled as list append)',
            'map dtype int32 for markers -1 and INVALID_INDEX_32, int64 for INVALID_INDEX_64 (and rotated for -1)']
-ASSUMPTIONS = ['valid map entries are in range and non-decreasing (the property\'s quantifier)',
+ASSUMPTIONS = ['valid map entries are in range (the property quantifies over non-decreasing maps; since fix-F-C02f the '
+               'streams are correct for every order, which is what DataFrame.merge needs for many-to-many keys)',
                'chunksize >= 1, value_factor >= 1',
                'indexed streaming: every *mapped* entry fits the value buffer (chunksize*value_factor); otherwise the '
                'repaired code raises ValueError (checked as correspondence, outside the property)']
@@ -249,16 +256,35 @@ def mapped_too_long(case):
     return any(k is not None and 0 <= k < len(case['strs']) and len(case['strs'][k]) > b for k in case['map'])
 
 
-def in_precondition(case):
+def in_range(case):
     n = len(case['strs']) if 'strs' in case else len(case['data'])
-    lo = 0
-    for k in case['map']:
-        if k is None:
-            continue
-        if not (lo <= k < n):
-            return False
-        lo = k
+    return all(k is None or 0 <= k < n for k in case['map'])
+
+
+def ordered(case):
+    v = [k for k in case['map'] if k is not None]
+    return all(a <= b for a, b in zip(v, v[1:]))
+
+
+def in_precondition(case):
+    """valid entries in range; the repaired streams (fix-F-C02f) do not need them ordered. With C04_VARIANT=orig /
+    fixed0 the streams are held to the specification on ordered maps only (outside: correspondence)."""
+    if not in_range(case):
+        return False
+    if VARIANT and case['op'] in ('stream', 'istream') and not ordered(case):
+        return False
     return case.get('cs', 1) >= 1 and case.get('vf', 1) >= 1
+
+
+def equal(case, impl, expected, mode):
+    """default comparison, except for the tie of the PRE-fix-F-C02f models (C04_VARIANT=orig/fixed0) to the pre-fix tree on
+    unordered maps: where the model reports an access below the value window, interpreted numpy wraps the negative
+    index and goes on with a wrong value (the compiled modes are not run on model-OOB cases)"""
+    from harness import core
+    if VARIANT and case['op'] in ('stream', 'istream') and not ordered(case) and \
+            isinstance(expected, str) and (expected.startswith('OOB') or expected == 'EXC:IndexError'):
+        return True     # IndexError, or any behaviour after the wrapped read (wrong rows, a later ValueError)
+    return core.results_equal(impl, expected, mode)
 
 
 def from_val(case, v):
@@ -353,6 +379,30 @@ def features(case, model):
         f.append('explicit-empty-value')
     if not in_precondition(case):
         f.append('outside-precondition')
+    if not ordered(case):
+        f.append('unordered-map (F-C02f region)')
+        if op in ('stream', 'istream'):
+            cs = case['cs']
+            for i in range(0, len(m), cs):
+                cv = [k for k in m[i:i + cs] if k is not None]
+                if cv and (cv[0] != min(cv) or cv[-1] != max(cv)):
+                    f.append('window-not-first..last')
+                    break
+            for i in range(0, len(m), cs):
+                cv = [k for k in m[i:i + cs] if k is not None]
+                if cv and max(cv) - min(cv) >= cs:
+                    f.append('unordered-span>=chunk (sub-chunking)')
+                    break
+        if op == 'istream':
+            b = case['cs'] * case['vf']
+            strs = case['strs']
+            cs = case['cs']
+            for i in range(0, len(m), cs):
+                cv = [k for k in m[i:i + cs] if k is not None and 0 <= k < len(strs)]
+                if cv and sum(len(s) for s in strs[min(cv):max(cv) + 1]) > b and \
+                        any(y < x for x, y in zip(cv, cv[1:])):
+                    f.append('value-sub-chunk-revisited-backwards')
+                    break
     return f
 
 
@@ -382,6 +432,15 @@ def all_maps(n, L):
             yield from rec(pos + 1, k, acc)
             acc.pop()
     yield from rec(0, 0, [])
+
+
+def all_maps_any(n, L):
+    """every map of length n over a source of length L, valid entries in any order, None anywhere; only the
+    maps that are NOT non-decreasing (the others come from all_maps)"""
+    for t in itertools.product([None] + list(range(L)), repeat=n):
+        v = [k for k in t if k is not None]
+        if any(a > b for a, b in zip(v, v[1:])):
+            yield list(t)
 
 
 NUM_DATA = [10, 20, 30, 40, 50, 60, 70, 80]
@@ -468,6 +527,26 @@ def _gen(tier, rng):
                             if inv == 0 and rot % 2:
                                 c['mdt'] = 'int64'
                             yield c
+    # ---- the same two streams on unordered maps (fix-F-C02f)
+    Nu, Lu = (6, 4) if big else (5, 4)
+    for Ls in range(2, Lu + 1):
+        for n in range(2, Nu + 1):
+            for m in all_maps_any(n, Ls):
+                if Ls < Lu and Ls - 1 not in m:
+                    continue
+                for cs in range(1, Nu + 2):
+                    rot += 1
+                    inv = rot % 3
+                    for kind in (('int32', other_kinds[rot % 6]) if big else ((['int32'] + other_kinds)[rot % 7],)):
+                        c = {'op': 'stream', 'kind': kind, 'data': _data(kind, Ls), 'map': m, 'inv': inv, 'cs': cs}
+                        if inv == 0 and rot % 2:
+                            c['mdt'] = 'int64'
+                        yield c
+                    for vf in ((1, 2) if big else (1 + rot % 2,)):
+                        pats = str_patterns(Ls, cs * vf)
+                        p = pats[rot % len(pats)]
+                        c = {'op': 'istream', 'strs': _strs(p), 'map': m, 'inv': (rot + vf) % 3, 'cs': cs, 'vf': vf}
+                        yield c
     # ---- non-streaming helpers
     for Ls in range(0, L + 1):
         for n in range(0, N + 1):
@@ -519,6 +598,45 @@ def _gen(tier, rng):
             lens = [max(0, x) for x in lens]
             yield {'op': 'istream', 'strs': _strs([x for x in lens]), 'map': m, 'inv': inv, 'cs': cs, 'vf': vf,
                    'store': store}
+    yield from _gen_unordered_random(big, rng)
+
+
+def _gen_unordered_random(big, rng):
+    other_kinds = ['int64', 'uint8', 'float32', 'float64', 'bool', 'S3']
+    for k in range(4000 if big else 1000):
+        Ls = rng.randint(2, 30)
+        cs = rng.choice([1, 2, 3, 4, 5, 8])
+        mode = rng.choice(['sawtooth', 'perm', 'zigzag', 'random'])
+        if mode == 'sawtooth':          # right-hand map of a many-to-many join: runs a..b repeated p times
+            m, a = [], 0
+            while a < Ls and len(m) < 40:
+                q = rng.choice([1, 1, 2, 3, cs, cs + 1])
+                b = min(Ls, a + q)
+                p = rng.choice([1, 2, 2, 3])
+                if rng.random() < 0.2:
+                    m.append(None)
+                m.extend(list(range(a, b)) * p)
+                a = b + rng.choice([0, 0, 1, cs])
+        elif mode == 'perm':
+            m = list(range(Ls)); rng.shuffle(m); m = m[:rng.randint(2, Ls)]
+        elif mode == 'zigzag':          # alternate between the two ends of the source
+            m = [(0 if i % 2 else Ls - 1) if rng.random() < 0.8 else rng.randrange(Ls) for i in range(rng.randint(2, 20))]
+        else:
+            m = [None if rng.random() < 0.25 else rng.randrange(Ls) for _ in range(rng.randint(2, 30))]
+        inv = rng.randint(0, 2)
+        store = 'h5' if k % 10 == 0 else 'mem'
+        if k % 2:
+            kind = rng.choice(['int32'] + other_kinds)
+            data = [rng.choice(['', 'a', 'bc', 'def']) for _ in range(Ls)] if kind == 'S3' else \
+                   [rng.randint(0, 1) for _ in range(Ls)] if kind == 'bool' else [rng.randint(0, 100) for _ in range(Ls)]
+            yield {'op': 'stream', 'kind': kind, 'data': data, 'map': m, 'inv': inv, 'cs': cs, 'store': store}
+        else:
+            vf = rng.choice([1, 2, 3, 8])
+            b = cs * vf
+            lens = [max(0, rng.choice([0, 1, 2, b - 1, b, b, rng.randint(0, b)])) for _ in range(Ls)]
+            if rng.random() < 0.05:
+                lens[rng.randrange(Ls)] = b + rng.randint(1, 3)
+            yield {'op': 'istream', 'strs': _strs(lens), 'map': m, 'inv': inv, 'cs': cs, 'vf': vf, 'store': store}
 
 
 def _strs(lens):  # noqa: F811  (letters wrap for long sources)
